@@ -262,6 +262,30 @@ def generate(path, mod, isa_path, ea_field="f_StepInfo_EA"):
     lines.append("Print Assumptions C07_br_%s.\n" % mod)
     files["C07_%s_br" % mod] = shard_hdr + "From Props Require Import CoupleProps.\n\n" + "\n".join(lines)
     lemmas += ["step_br"]
+    # ---- 4c. block moves: PC stays on the instruction or advances by the table size
+    mv_rows, mv_ops, mv_unproved, mv_done = [], [], [], set()
+    for op in (0x44, 0x54):
+        p = op_proc[op]
+        if mn[op] not in ("MVP", "MVN") or p not in byname or int(tbl_mode.get(op, -1)) != 22 or byname[p]["params"]:
+            mv_unproved.append((op, p))
+            continue
+        if p not in mv_done:
+            mv_done.add(p)
+            alts = calls_of(p, "fr")
+            callt = "fun _ => lazymatch goal with %s end" % " ".join(alts) if alts else "fun _ => fail"
+            ea = "(rng 24)" if uses[p] else "ea"
+            mv_rows.append(MV_ROUTINE % {"proc": p, "eaq": "" if uses[p] else "(ea : Z -> Prop) ", "ea": ea, "call": callt})
+            lemmas.append("mvr_" + p)
+        mv_rows.append(MV_ROW % {"op": op, "proc": p})
+        mv_ops.append(op)
+        lemmas += ["rmv_%d" % op, "cmv_%d" % op]
+    lines = [MV_COMMON] + [r for r in mv_rows if r.startswith("Lemma mvr_")] + [MV_STEP] + [r for r in mv_rows if not r.startswith("Lemma mvr_")]
+    lines.append("Definition mv_ops : list Z := [%s].\n" % "; ".join(str(o) for o in mv_ops))
+    lines.append("Theorem C07_mv_%s : forall op, In op mv_ops -> contract_mv_at op.\nProof.\n  intros op Hin. unfold mv_ops in Hin. cbn [In] in Hin.\n"
+                 "  repeat (destruct Hin as [Hin|Hin]; [subst op|]); try contradiction.\n%s\nQed.\n" % (mod, "\n".join("  - exact cmv_%d." % o for o in mv_ops)))
+    lines.append("Print Assumptions C07_mv_%s.\n" % mod)
+    files["C07_%s_mv" % mod] = shard_hdr + "\n".join(lines)
+    lemmas += ["step_mv"]
     # ---- 5. per opcode
     out = [shard_hdr, "From Run Require Import %s.\nFrom Model Require Import Emitter.\nFrom Props Require Import CoupleProps.\n" % " ".join(sorted(n for n in files if not n.endswith("_base")))]
     rows = []
@@ -291,10 +315,11 @@ def generate(path, mod, isa_path, ea_field="f_StepInfo_EA"):
     out.append("\n".join(lines))
     out.append(LEN_AGREES % {"mod": mod})
     out.append(INSTANCE % {"mod": mod})
-    out.append("Print Assumptions C07_contract_%s.\nPrint Assumptions C07_len_%s.\nPrint Assumptions c_br_contract.\nPrint Assumptions C07_partial_%s.\nPrint Assumptions C07_partial_patched_%s.\n" % (mod, mod, mod, mod))
+    out.append("Print Assumptions C07_contract_%s.\nPrint Assumptions C07_len_%s.\nPrint Assumptions c_br_contract.\nPrint Assumptions C07_moves_%s.\nPrint Assumptions C07_partial_%s.\nPrint Assumptions C07_partial_patched_%s.\n" % (mod, mod, mod, mod, mod))
     files["C07_%s" % mod] = "\n".join(out)
     return files, {"lemmas": lemmas, "straight": straight, "proved": proved, "unproved": unproved, "skipped": skipped,
-                   "needed": sorted(needed), "modes": modes, "br_ops": br_ops, "br_unproved": br_unproved}
+                   "needed": sorted(needed), "modes": modes, "br_ops": br_ops, "br_unproved": br_unproved,
+                   "mv_ops": mv_ops, "mv_unproved": mv_unproved}
 
 
 SHARD_HDR = """(* GENERATED per run by checks/cpucouple.py (property C07, model %(mod)s) *)
@@ -542,6 +567,58 @@ Proof.
 Qed.
 """
 
+MV_COMMON = """(* ---- block moves MVP / MVN.  Their routine assigns stepPC (0 = "execute me again"), so it has no frame lemma of the
+   general shape; it keeps the invariant with the pending step length either as it was or 0 *)
+Definition mvsp (sp v : Z) : Prop := v = 0 \\/ v = sp.
+Ltac ovr_hook ::= first [ solve_bitp | reflexivity | exact I | (left; reflexivity) ].
+Ltac relax_user H2 ::= first [ exact I | exact H2 | (right; symmetry; exact H2) | (left; symmetry; exact H2) ].
+
+Definition routine_mv (op : Z) : Prop := forall pc sp rk m x s1,
+  Inv (BT (eq pc) (eq sp) rk m x (rng 24)) s1 ->
+  safe (fun _ s' => True /\\ Inv (BT (eq pc) (mvsp sp) rk m x (rng 24)) s') (tbl_proc op s1).
+"""
+
+MV_ROUTINE = """Lemma mvr_%(proc)s : forall (Ppc : Z -> Prop) sp rk m x %(eaq)ss, Inv (BT Ppc (mvsp sp) rk m x %(ea)s) s ->
+  safe (fun r s' => True /\\ Inv (BT Ppc (mvsp sp) rk m x %(ea)s) s') (%(proc)s s).
+Proof. intros; cbv beta delta [%(proc)s]; safe_run ltac:(%(call)s). Qed.
+"""
+
+MV_STEP = """(* Step over an opcode of the block-move mode: PC stays (written add16 pc 0) or advances by the table size; bank, M, X,
+   E, the latch kept *)
+Lemma step_mv : forall op pc rk m x s, rng 8 op -> tbl_mode op = 22 -> routine_mv op -> bitp m -> bitp x ->
+  Inv (BT (eq pc) TT rk m x TT) s -> mem s (w_or (shl32 rk 16) pc) mod 256 = op ->
+  safe (fun _ s' => True /\\ Inv (BT (fun v => v = add16 pc 0 \\/ v = add16 pc (tbl_size op)) TT rk m x TT) s') (Step s).
+Proof.
+  intros op pc rk m x s Hop Hmode Hproc Hbm Hbx Hi Hfetch. step_start.
+  assert (Hm : mem s = mem s) by reflexivity. revert Hm Hfetch. generalize (mem s) at 2 3. intros m0 Hm Hfetch.
+  cbv beta delta [Step].
+  crun ltac:(fun _ => m_calls) ltac:(fun _ => step_calls Hproc) ea_sethook ltac:(fun _ => step_hook Hmode Hfetch).
+  all: cbv beta; (split; [exact I|]);
+    match goal with
+    | Hs : Inv _ ?sa, H : Inv (ovr f_PC (eq (add16 _ (get f_stepPC ?sa))) _) _ |- _ =>
+        let p := layer_pf Hs f_stepPC sa in pose proof p as Hsp; cbv beta in Hsp; destruct Hsp as [Hsp|Hsp]; rewrite Hsp in H;
+        (eapply inv_relax; [exact H | relax_tac])
+    end.
+Qed.
+
+Definition contract_mv_at (op : Z) : Prop := forall pc rk m x s, bitp m -> bitp x ->
+  Inv (BT (eq pc) TT rk m x TT) s -> mem s (w_or (shl32 rk 16) pc) mod 256 = op ->
+  safe (fun _ s' => Inv (BT (fun v => v = add16 pc 0 \\/ v = add16 pc (tbl_size op)) TT rk m x TT) s' /\\ Frame s s') (Step s).
+"""
+
+MV_ROW = """Lemma rmv_%(op)d : routine_mv %(op)d.
+Proof.
+  intros pc sp rk m x s1 Hi. change (tbl_proc %(op)d s1) with (%(proc)s s1).
+  eapply mvr_%(proc)s. eapply inv_relax; [exact Hi | relax_tac].
+Qed.
+Lemma cmv_%(op)d : contract_mv_at %(op)d.
+Proof.
+  intros pc rk m x s Hbm Hbx Hi Hf. apply safe_and_fr; [|apply mf_Step].
+  eapply safe_weaken; [ eapply (step_mv %(op)d pc rk m x s); [ rng_const | reflexivity | exact rmv_%(op)d | assumption | assumption | exact Hi | exact Hf ] | ].
+  intros r s' [_ H']. exact H'.
+Qed.
+"""
+
 CONTRACT = """(* ---- the contract of one opcode *)
 (* length by which this model's Step advances PC *)
 Definition cpu_len (op m x : Z) : Z :=
@@ -693,9 +770,9 @@ Proof.
   eapply inv_relayer_self; [exact Hi | self_tac].
 Qed.
 
-Theorem c_br_contract : br_contract st c_step c_ok c_pc c_rk c_m c_x mem c_fn c_fv c_fc c_fz cond_branch.
+Theorem c_br_contract : forall brs, br_contract st c_step c_ok c_pc c_rk c_m c_x mem c_fn c_fv c_fc c_fz brs.
 Proof.
-  intros s op [pc [rk [m [x [Hbm [Hbx Hi]]]]]] _ Hcb Hfetch Hnt.
+  intros brs s op [pc [rk [m [x [Hbm [Hbx Hi]]]]]] _ Hcb Hfetch Hnt.
   destruct (c_ok_vals s pc rk m x Hi) as [E1 [E2 [E3 [E4 [R1 R2]]]]].
   destruct (c_ok_flags s pc rk m x Hi) as [Bc [Bz [Bv [Bn Hif]]]].
   pose proof (br_covered op Hcb) as Hin.
@@ -770,7 +847,7 @@ Qed.
 
 Example ex_step_br : exists s', c_step ex_state_br = Some s' /\\ c_pc s' = 32770 /\\ c_m s' = 1 /\\ c_x s' = 0 /\\ mem s' 32769 = 255.
 Proof.
-  destruct (c_br_contract ex_state_br 208 ex_c_ok_br eq_refl eq_refl eq_refl eq_refl) as [s' [H1 [_ [_ [H2 [H3 [H4 H5]]]]]]].
+  destruct (c_br_contract cond_branch ex_state_br 208 ex_c_ok_br eq_refl eq_refl eq_refl eq_refl) as [s' [H1 [_ [_ [H2 [H3 [H4 H5]]]]]]].
   exists s'. split; [exact H1|]. split; [exact H2|]. split; [exact H3|]. split; [exact H4|]. rewrite H5. reflexivity.
 Qed.
 
@@ -791,7 +868,7 @@ Theorem C07_partial_%(mod)s : forall ops e0 b s0,
   nottaken st c_step c_pc c_rk mem c_fn c_fv c_fc c_fz cond_branch (List.length (starts ops e0)) s0 ->
   exists sf, fetches st c_step c_pc c_rk (List.length (starts ops e0)) s0 = Some (starts ops e0, sf) /\\
              c_m sf = mbit ef /\\ c_x sf = xbit ef /\\ c_pc sf = address ef mod 65536 /\\ c_rk sf = bank.
-Proof. exact (C07_couple st c_step c_ok c_pc c_rk c_m c_x mem wrote c_fn c_fv c_fc c_fz cond_branch c_ranges c_contract c_br_contract). Qed.
+Proof. exact (C07_couple st c_step c_ok c_pc c_rk c_m c_x mem wrote c_fn c_fv c_fc c_fz cond_branch c_ranges c_contract (c_br_contract cond_branch) (fun op H => proj2 (move_not_straight op H))). Qed.
 
 (* the same with ANY byte in memory at the position of a label operand (placeholder before / displacement after Finalize) *)
 Theorem C07_partial_patched_%(mod)s : forall ops e0 b s0,
@@ -806,5 +883,59 @@ Theorem C07_partial_patched_%(mod)s : forall ops e0 b s0,
   nottaken st c_step c_pc c_rk mem c_fn c_fv c_fc c_fz cond_branch (List.length (starts ops e0)) s0 ->
   exists sf, fetches st c_step c_pc c_rk (List.length (starts ops e0)) s0 = Some (starts ops e0, sf) /\\
              c_m sf = mbit ef /\\ c_x sf = xbit ef /\\ c_pc sf = address ef mod 65536 /\\ c_rk sf = bank.
-Proof. exact (C07_couple_patched st c_step c_ok c_pc c_rk c_m c_x mem wrote c_fn c_fv c_fc c_fz cond_branch c_ranges c_contract c_br_contract). Qed.
+Proof. exact (C07_couple_patched st c_step c_ok c_pc c_rk c_m c_x mem wrote c_fn c_fv c_fc c_fz cond_branch c_ranges c_contract (c_br_contract cond_branch) (fun op H => proj2 (move_not_straight op H))). Qed.
+
+(* ---- block moves.  The clause: one Step over MVP / MVN keeps the bank and the widths and leaves PC on the instruction
+   or advances it by 3; memory changes only where a write is logged *)
+Lemma mv_len_b : forallb (fun op => (tbl_size op =? 3) && (tbl_mode op =? 22)) mv_ops = true.
+Proof. vm_compute. reflexivity. Qed.
+Lemma mv_covered : forall op, move_op op = true -> In op mv_ops.
+Proof. intros op H. destruct (move_cases op H) as [->| ->]; vm_compute; auto. Qed.
+Definition c_adm (op : Z) : bool := cond_branch op || move_op op.
+
+Theorem c_mv_contract : forall brs, mv_contract st c_step c_ok c_pc c_rk c_m c_x mem wrote brs.
+Proof.
+  intros brs s op [pc [rk [m [x [Hbm [Hbx Hi]]]]]] _ Hmo Hfetch.
+  destruct (c_ok_vals s pc rk m x Hi) as [E1 [E2 [E3 [E4 [R1 R2]]]]].
+  pose proof (mv_covered op Hmo) as Hin.
+  assert (R1' : 0 <= c_pc s < 65536) by (unfold rng in R1; change (2 ^ 16) with 65536 in R1; exact R1).
+  assert (R2' : 0 <= c_rk s < 256) by (unfold rng in R2; change (2 ^ 8) with 256 in R2; exact R2).
+  assert (Hf : mem s (w_or (shl32 rk 16) pc) mod 256 = op).
+  { rewrite E1, E2. rewrite lor_shl16 by assumption. exact Hfetch. }
+  pose proof (C07_mv_%(mod)s op Hin pc rk m x s Hbm Hbx Hi Hf) as Hc.
+  assert (Hsz : tbl_size op = 3).
+  { pose proof mv_len_b as Hl. rewrite forallb_forall in Hl. specialize (Hl op Hin). apply andb_true_iff in Hl. destruct Hl as [Hl _].
+    apply Z.eqb_eq in Hl. exact Hl. }
+  unfold c_step. destruct (Step s) as [r s'|]; cbn [safe] in Hc; [|contradiction].
+  destruct Hc as [Hi' Hfr]. exists s'. split; [reflexivity|].
+  let p := layer_pf Hi' f_PC s' in pose proof p as Hd. cbv beta in Hd.
+  assert (Hi2 : Inv (BT (eq (get f_PC s')) TT rk m x TT) s') by (eapply inv_relayer_self; [exact Hi' | self_tac]).
+  destruct (c_ok_vals s' _ _ _ _ Hi2) as [_ [F2 [F3 [F4 _]]]].
+  split; [eexists _, _, _, _; split; [exact Hbm | split; [exact Hbx | exact Hi2]]|].
+  split; [rewrite <- F2, <- E2; reflexivity|].
+  split; [rewrite <- F3, <- E3; reflexivity|].
+  split; [rewrite <- F4, <- E4; reflexivity|].
+  split.
+  { unfold c_pc at 1 3. rewrite Hsz in Hd. unfold add16 in Hd. rewrite <- E1.
+    destruct Hd as [Hd|Hd]; [left | right]; rewrite Hd; [|reflexivity].
+    rewrite Z.add_0_r. apply Z.mod_small. rewrite E1. exact R1'. }
+  intro a. apply Frame_mem. exact Hfr.
+Qed.
+
+(* C07 with block moves for this interpreter: Props/CoupleProps.C07_couple_moves instantiated (programs of straight-line
+   instructions, conditional branches not taken in the run, MVN / MVP): for every N, the first k <= N steps fetch exactly
+   at the instruction starts, in order, a block move as often as it repeats itself; then the program is finished with
+   the tracked widths, or the N steps are used up. *)
+Theorem C07_moves_%(mod)s : forall ops e0 b s0 N,
+  straightline c_adm ops e0 -> buf e0 = Some b -> 0 <= n e0 <= ZList.zlen b ->
+  let ef := fst (run ops e0) in
+  let bank := address e0 / 65536 in
+  0 <= address e0 < 16777216 ->
+  address e0 + (n ef - n e0) <= (bank + 1) * 65536 ->
+  (forall i, 0 <= i < n ef - n e0 -> hole ops e0 (n e0 + i) = false -> mem s0 (address e0 + i) = ZList.znth (Bytes ef) (n e0 + i)) ->
+  c_ok s0 -> addr24 (c_rk s0) (c_pc s0) = address e0 -> c_m s0 = mbit e0 -> c_x s0 = xbit e0 ->
+  nowrite st c_step wrote N s0 (address e0) (address e0 + (n ef - n e0)) ->
+  nottaken st c_step c_pc c_rk mem c_fn c_fv c_fc c_fz c_adm N s0 ->
+  walk st c_step c_ok c_pc c_rk c_m c_x ops e0 ef bank N s0.
+Proof. exact (C07_couple_moves st c_step c_ok c_pc c_rk c_m c_x mem wrote c_fn c_fv c_fc c_fz c_adm c_ranges c_contract (c_br_contract c_adm) (c_mv_contract c_adm)). Qed.
 """
